@@ -276,6 +276,132 @@ def mode_cache(env, payload):
     return {'observed': out, 'seed_size': len(seed)}
 
 
+def enum_nodes(vf):
+    """every expression node of the initial form (kernel expressions, then let-bound variables), in a
+    deterministic order"""
+    seen, out = set(), []
+
+    def rec(e):
+        if id(e) in seen:
+            return
+        seen.add(id(e))
+        out.append(e)
+        for c in e.children:
+            rec(c)
+    for e in vf.exprs:
+        rec(e)
+    for v in vf.vars.values():
+        if v.expr is not None:
+            rec(v.expr)
+    return out
+
+
+def alternatives(env, vf, node, attr, pool):
+    """values of the same kind as getattr(node, attr) that differ from it: descriptors resolved on a fresh form"""
+    import math
+    vform = env.vform
+    v = getattr(node, attr)
+    out = []
+    if isinstance(v, (bool, np.bool_)):
+        out.append(('lit', (not v)))
+    elif isinstance(v, (int, np.integer)):
+        out.append(('lit', int(v) + 1))
+        if v > 0:
+            out.append(('lit', int(v) - 1))
+    elif isinstance(v, float):
+        out += [('lit', math.nextafter(v, math.inf)), ('lit', v * (1 + 8.7e-7) if v else 1e-300), ('lit', -v if v else 1.0)]
+    elif isinstance(v, str):
+        out += [('lit', x) for x in pool if x != v][:3]
+    elif isinstance(v, tuple) and all(isinstance(x, (int, np.integer)) for x in v):
+        for k in range(len(v)):
+            out.append(('lit', tuple(int(x) + (1 if j == k else 0) for j, x in enumerate(v))))
+            if v[k] > 0:
+                out.append(('lit', tuple(int(x) - (1 if j == k else 0) for j, x in enumerate(v))))
+        out = out[:3]
+    elif isinstance(v, vform.AsmVar):
+        for name, w in vf.vars.items():
+            if w is not v and tuple(w.shape) == tuple(v.shape) and (w.src is None) == (v.src is None):
+                out.append(('var', name))
+        out = out[:2]
+    elif isinstance(v, vform.BasisFun):
+        for k, b in enumerate(vf.basis_funs):
+            if b.name != v.name:
+                out.append(('bf', k))
+        if v.component is not None:
+            out.append(('bfcomp', (v.name, v.component + 1)))
+    return out
+
+
+def resolve(env, vf, desc):
+    kind, x = desc
+    if kind == 'lit':
+        return x
+    if kind == 'var':
+        return vf.vars[x]
+    if kind == 'bf':
+        return vf.basis_funs[x]
+    if kind == 'bfcomp':
+        return env.vform.BasisFun(x[0], vf, component=x[1])
+    raise ValueError(kind)
+
+
+def mode_attrmut(env, payload):
+    """For every node class / constructor attribute of the translated table: a pair of forms that differ in
+    exactly that attribute of one node (set on a freshly built form before it is hashed)."""
+    table = payload['table']            # class -> [attr, ...]
+    pool = payload.get('pool', {})
+    out = []
+    for spec in payload['specs']:
+        try:
+            vf0 = env.build(spec)
+            nodes0 = enum_nodes(vf0)
+            h0 = vf0.hash()
+            try:
+                c0 = csha(env.compile.generate(env.build(spec), on_demand=False))
+            except Exception as e:  # noqa
+                c0 = 'ERR:' + errclass(e)
+        except Exception as e:  # noqa
+            continue
+        byclass = {}
+        for k, n in enumerate(nodes0):
+            byclass.setdefault(type(n).__name__, []).append(k)
+        for cls, attrs in table.items():
+            idx = byclass.get(cls, [])
+            if not idx:
+                continue
+            picks = sorted({idx[0], idx[-1]})
+            for attr in attrs:
+                for k in picks:
+                    if not hasattr(nodes0[k], attr):
+                        continue
+                    for desc in alternatives(env, vf0, nodes0[k], attr, pool.get('%s.%s' % (cls, attr), [])):
+                        r = {'id': spec['id'], 'cls': cls, 'attr': attr, 'node': k, 'old': repr(getattr(nodes0[k], attr))[:60] if not hasattr(getattr(nodes0[k], attr), 'name') else getattr(nodes0[k], attr).name,
+                             'new': [desc[0], repr(desc[1])], 'base_code': c0}
+
+                        def mutated():
+                            vf = env.build(spec)
+                            n = enum_nodes(vf)[k]
+                            setattr(n, attr, resolve(env, vf, desc))
+                            return vf
+                        try:
+                            r['hash_eq'] = (mutated().hash() == h0)
+                            try:
+                                r['code'] = csha(env.compile.generate(mutated(), on_demand=False))
+                            except Exception as e:  # noqa
+                                r['code'] = 'ERR:' + errclass(e)
+                            if r['hash_eq'] and r['code'] != c0 and not r['code'].startswith('ERR') and not c0.startswith('ERR'):
+                                # confirm with independent generations (generate() is not deterministic text-wise)
+                                a, b = set(), set()
+                                for _ in range(6):
+                                    a.add(csha(env.compile.generate(env.build(spec), on_demand=False)))
+                                    b.add(csha(env.compile.generate(mutated(), on_demand=False)))
+                                r['confirmed'] = not (a & b)
+                        except Exception as e:  # noqa
+                            r['err'] = errclass(e) + ': ' + str(e)[:80]
+                        out.append(r)
+    return {'mutations': out}
+
+
 def mode_history(env, payload):
     """Histories of add() / hash() / compile_vform() on form objects sharing the in-process cache.
     Oracle for every step: a form built from scratch with the adds accepted so far."""
@@ -455,7 +581,7 @@ def main():
     payload = json.load(sys.stdin)
     env = Env()
     mode = payload['mode']
-    res = {'forms': mode_forms, 'codes': mode_codes, 'confirm': mode_confirm, 'history': mode_history, 'cache': mode_cache, 'fresh': mode_fresh, 'build': mode_build}[mode](env, payload)
+    res = {'forms': mode_forms, 'codes': mode_codes, 'confirm': mode_confirm, 'history': mode_history, 'attrmut': mode_attrmut, 'cache': mode_cache, 'fresh': mode_fresh, 'build': mode_build}[mode](env, payload)
     sys.stdout.write('\n' + json.dumps(res) + '\n')
 
 
